@@ -702,6 +702,8 @@ class Translator:
         if k == "amnt":
             if m == "abs" and not args:
                 return self.bindall([recv], lambda c: Val(f"(a_abs am {c[0]})", AMNT, True))
+            if m == "is_sign_negative" and not args:
+                return self.bindall([recv], lambda c: Val(f"(a_sign_neg am {c[0]})", BOOL, True))
             if ctx.get("amount_is_qty") or True:
                 # AmountT is itself a quantity (impl Quantity for AmountT)
                 return self.amount_inst_method("AmountT", m, recv, args, ctx, env)
